@@ -354,3 +354,8 @@ h_mul_small!(c01_t_mul_bvd2_l1_smallrhs, 4, sparsetop_bvd2(1), small_bvd2(anylen
 h_mul_small!(c01_t_mul_bvd2_l63_smallrhs, 4, sparsetop_bvd2(63), small_bvd2(anylen(128)));
 h_mul_small!(c01_t_mul_bvd2_l66_bvfix, 4, sparsetop_bvd2(66), small_bvfix(anylen(128)));
 h_mul_small!(c01_t_mul_bvd1_l64_smallrhs, 3, sparse_bvd1(64), small_bvd2(anylen(128)));
+// Bvd x Bvf / inline Bv at lengths that are not a multiple of 64 (separate code path from
+// Bvd x Bvd: `Mul<&Bvf> for &Bvd`), product wrapping into the masked top word.
+h_mul_small!(c01_q_mul_bvd2_l100_f64x2, 4, sparsetop_bvd2(100), small_f64x2(anylen(128)));
+h_mul_small!(c01_q_mul_bvd2_l70_bvfix, 4, sparsetop_bvd2(70), small_bvfix(anylen(128)));
+h_mul_small!(c01_t_mul_bvdyn2_l127_f64x2, 4, sparsetop_bvdyn2(127), small_f64x2(anylen(128)));
